@@ -2,7 +2,9 @@
 
 Engine E1: every layout of small rasters over the cell alphabet {0 = background, T = target, NaN} is run
 through the real proximity(), allocation() and direction() (NumPy backend) and the three outputs are
-judged together against a brute-force nearest-target model (xrmc/oracles/proximity.py).
+judged together against a brute-force nearest-target model (xrmc/oracles/proximity.py).  A second cell alphabet
+{0, a, b} ("value precision") carries pairs of values that only float64 / int64 can tell apart, so that the target
+test is exercised at the raster's own precision.
 
 Two execution modes of the same source (DESIGN 1.2): the three functions re-JIT a closure on every call
 (~1.5 s per call compiled, ~0.6 ms under NUMBA_DISABLE_JIT=1), so the large enumerations are `interp`
@@ -29,7 +31,10 @@ RULE = ("default_*: every raster of the listed shape over the listed alphabet (r
         "cell letters, letters ordered 0, T, NaN; a T cell carries the value 1 + its row-major index, unique to the "
         "cell); config_*: every {0,T} layout x coordinate system x metric x max_distance x target_values; "
         "conf_*: all {0,T} layouts of 2x3 x metric and a fixed slice of 3x3 layouts x metric x configuration variants, "
-        "run compiled (jit) and interpreted (twin space, same cases); sparse_HxW_leK: every placement of <= K targets. "
+        "run compiled (jit) and interpreted (twin space, same cases); sparse_HxW_leK: every placement of <= K targets; "
+        "precision_HxW[_leK]: every layout over {0, a, b} (all 729 of 2x3; 3x3 with <= K non-background cells: K = 2 quick, 5 thorough) x value pair (a, b) that float32 cannot tell apart or cannot hold (PRECISION: 0.3 vs float32(0.3) and 2^24+1 vs "
+        "2^24 in float64 / int64 rasters with target_values = [a] in both directions; 1e-60, 1e200 and their negatives as "
+        "default targets), conf_precision_2x3_*: a fixed layout slice of the same product, compiled and interpreted. "
         "One case = proximity + allocation + direction on the same raster (3 implementation calls) judged together; "
         "validated = cases with a definite verdict, tie_skipped = cell-level assertions skipped because D* is within "
         "tolerance of max_distance or two cells coincide geographically. A case is non-trivial when it has >= 1 target "
@@ -61,6 +66,13 @@ ASSUMPTIONS = [
     "explicit target_values are run on {0,T} layouts whose T cells carry the class value 1 + (row+col) % 3 "
     "(so that non-zero non-target cells and several targets per value occur); allocation then names the class and "
     "proximity + direction pin the cell",
+    "allocation() returns a float32 raster, so the value it reports for the named target is compared with the float32 "
+    "rounding of that cell's value (identity on every small-integer alphabet; in the precision_* spaces 2^24+1 is reported "
+    "as 2^24, 1e-60 as 0 and 1e200 as inf - the output dtype is taken as given, not judged here); which cell is named is "
+    "pinned by proximity + direction, and the target test (proximity 0 exactly on targets, decoy b is NOT a target) is "
+    "judged on the unrounded float64 / int64 values",
+    "precision_*: target_values are given as Python numbers of the raster's kind (floats for 0.3, ints for 2^24+k); not "
+    "generated: integer ids >= 2^53 (float64 itself cannot hold them), uint64, float16 rasters",
     "jit vs interpreted agreement is established through the common oracle (both within 1e-5 of the model on the "
     "same cases), not by comparing tie-breaking choices across modes",
 ]
@@ -136,7 +148,11 @@ def judge(a, outs, D, B, tv, maxd, exact):
         if o.shape != a.shape:
             return [("prox-shape", "%s has shape %r, raster %r" % (name, o.shape, a.shape))], 0, 0
     p, al, dr = (np.asarray(o, dtype=np.float64).ravel() for o in outs)
-    vals = np.asarray(a, dtype=np.float64).ravel()
+    # allocation() returns a float32 raster: the value it can report for a target is the float32 rounding of the
+    # cell value (identity for every small-integer alphabet; 2**24+1 -> 2**24, 1e-60 -> 0, 1e200 -> inf).  WHICH cell
+    # is named is pinned by proximity + direction below, the target test itself is judged on the unrounded values.
+    with np.errstate(over="ignore"):
+        vals = np.asarray(a).astype(np.float32).astype(np.float64).ravel()
     tm = orc.target_mask(a, tv).ravel()
     Ds = orc.nearest(D, tm)
     pn, an, dn = np.isnan(p), np.isnan(al), np.isnan(dr)
@@ -421,13 +437,102 @@ class Conf3x3Space(ProxSpace):
         return config_case((3, 3), letters, sysname, METRICS[mi], maxd_name, ti)
 
 
+# ---- value precision: cell values / target_values that float32 cannot hold -----------------------------------
+F32_03 = float(np.float32(0.3))      # 0.30000001192092896 = the float32 nearest to 0.3, written as a float64
+BIG = 2 ** 24                        # 16777216; BIG + 1 is the first integer without a float32 representation
+# (name, raster dtype, value of letter a, value of letter b, target_values or None = default targets).
+# Explicit target_values name letter a only: b (the "decoy") differs from a in float64 / int64 but collides with it
+# under float32 rounding, so a target test taken at reduced precision either loses a or adopts b.  Default targets:
+# non-zero finite magnitudes that float32 flushes to 0 or overflows to inf are targets like any other value.
+PRECISION = [
+    ("f64:a=0.3,b=f32(0.3),tv=[a]", "float64", 0.3, F32_03, [0.3]),
+    ("f64:a=f32(0.3),b=0.3,tv=[a]", "float64", F32_03, 0.3, [F32_03]),
+    ("f64:a=2^24+1,b=2^24,tv=[a]", "float64", BIG + 1, BIG, [BIG + 1]),
+    ("f64:a=2^24,b=2^24+1,tv=[a]", "float64", BIG, BIG + 1, [BIG]),
+    ("i64:a=2^24+1,b=2^24,tv=[a]", "int64", BIG + 1, BIG, [BIG + 1]),
+    ("i64:a=2^24,b=2^24+1,tv=[a]", "int64", BIG, BIG + 1, [BIG]),
+    ("f64:a=1e-60,b=NaN,default", "float64", 1e-60, NAN, None),
+    ("f64:a=1e200,b=NaN,default", "float64", 1e200, NAN, None),
+    ("f64:a=1e-60,b=1e200,default", "float64", 1e-60, 1e200, None),
+    ("f64:a=-1e-60,b=-1e200,default", "float64", -1e-60, -1e200, None),
+]
+PRECISION_SYS = {(2, 3): "unit_asc", (3, 3): "x0.5_y2desc"}
+
+
+def precision_layouts(shape, kmax):
+    """Every letter vector over {0 = background, 1 = a, 2 = b} with <= kmax non-background cells, fewest first."""
+    n = shape[0] * shape[1]
+    lays = []
+    for k in range(min(kmax, n) + 1):
+        for cells in itertools.combinations(range(n), k):
+            for letters in itertools.product((1, 2), repeat=k):
+                lay = [0] * n
+                for i, l in zip(cells, letters):
+                    lay[i] = l
+                lays.append(tuple(lay))
+    return lays
+
+
+def precision_case(shape, letters, vi):
+    name, dt, va, vb, tv = PRECISION[vi]
+    a = np.zeros(shape[0] * shape[1], dtype=dt)
+    for i, l in enumerate(letters):
+        if l:
+            a[i] = va if l == 1 else vb
+    w = shape[1]
+    key = "%dx%d|vp=%s|a=%s|b=%s" % (shape[0], w, name, fmt_cells([(i // w, i % w) for i, l in enumerate(letters) if l == 1]),
+                                     fmt_cells([(i // w, i % w) for i, l in enumerate(letters) if l == 2]))
+    return dict(a=a.reshape(shape), sys=PRECISION_SYS[shape], metric="EUCLIDEAN", maxd_name="inf", tv=tv, defaults=True, key=key)
+
+
+class PrecisionSpace(ProxSpace):
+    """Value precision: every {0, a, b} layout (<= kmax non-background cells) x PRECISION variant, default arguments
+    apart from target_values (the variant is the major index)."""
+
+    def __init__(self, shape, kmax):
+        self.shape = shape
+        self.layouts = precision_layouts(shape, kmax)
+        n = shape[0] * shape[1]
+        self.name = "precision_%dx%d" % shape + ("" if kmax >= n else "_le%dcells" % kmax)
+        self.size = len(self.layouts) * len(PRECISION)
+        self.weight = n
+
+    def case(self, rank):
+        vi, li = divmod(rank, len(self.layouts))
+        return precision_case(self.shape, self.layouts[li], vi)
+
+
+class PrecisionConfSpace(ProxSpace):
+    """Per PRECISION variant the first `per_variant` 2x3 layouts of the fixed sequence (37 + 101 k) mod 729 (mixed-radix
+    letters over {0, a, b}) that contain both a and b; run compiled and interpreted (twin)."""
+
+    def __init__(self, mode, per_variant):
+        self.mode = mode
+        seq = []
+        for k in range(729):
+            letters = tuple(unrank_product((37 + 101 * k) % 729, [3] * 6))
+            if 1 in letters and 2 in letters:
+                seq.append(letters)
+            if len(seq) == per_variant:
+                break
+        self.layouts = seq
+        self.name = "conf_precision_2x3_" + mode
+        self.size = len(seq) * len(PRECISION)
+        self.weight = 1000 if mode == "jit" else 1
+
+    def case(self, rank):
+        vi, li = divmod(rank, len(self.layouts))
+        return precision_case((2, 3), self.layouts[li], vi)
+
+
 TIERS = {
     "quick": dict(thin=[(1, 1), (1, 2), (2, 1), (1, 5), (5, 1), (2, 2)], default=[((3, 3), 3)], dtypes=(3, 3),
                   config=((3, 3), 3), sparse=[((4, 4), 4, True), ((6, 6), 2, False), ((2, 8), 3, False), ((8, 2), 3, False)],
-                  slice=(4, 2)),
+                  slice=(4, 2), precision=[((2, 3), 6), ((3, 3), 2)], precision_conf=1),
     "thorough": dict(thin=[(1, 1), (1, 2), (2, 1), (1, 5), (5, 1), (2, 2), (1, 7), (7, 1), (2, 3), (3, 2)],
                      default=[((3, 3), 3), ((2, 5), 3), ((3, 4), 3), ((4, 4), 2)], dtypes=(3, 3),
-                     config=((3, 4), 4), sparse=[((6, 6), 3, False), ((2, 8), 4, False), ((8, 2), 4, False)], slice=(32, 4)),
+                     config=((3, 4), 4), sparse=[((6, 6), 3, False), ((2, 8), 4, False), ((8, 2), 4, False)], slice=(32, 4),
+                     precision=[((2, 3), 6), ((3, 3), 5)], precision_conf=4),
 }
 BOUNDS = {t: {"default_configuration": [dict(shape=list(s), letters=["0", "T", "NaN"][:n]) for s, n in b["default"]],
               "thin_shapes_3letters": [list(s) for s in b["thin"]],
@@ -438,6 +543,11 @@ BOUNDS = {t: {"default_configuration": [dict(shape=list(s), letters=["0", "T", "
                             for sh, k, ex in b["sparse"]],
               "jit_conformance": dict(all_layouts="2x3: all 64 layouts x EUCLIDEAN; MANHATTAN and GREAT_CIRCLE on all (interpreted, thorough) or every 4th layout (compiled, quick)", slice_3x3=dict(layouts=b["slice"][0], variants=b["slice"][1],
                                                                                     metrics=3)),
+              "value_precision_0ab": dict(variants=[v[0] for v in PRECISION],
+                                          grids=[dict(shape=list(sh), max_non_background_cells=min(k, sh[0] * sh[1]),
+                                                      coordinates=PRECISION_SYS[sh]) for sh, k in b["precision"]],
+                                          configuration="defaults (EUCLIDEAN, unbounded); target_values=[a] or default targets",
+                                          jit_conformance_layouts_per_variant=b["precision_conf"]),
               "tolerances": dict(rtol=RTOL, atol=ATOL, bearing_deg=ANG_TOL)} for t, b in TIERS.items()}
 
 
@@ -448,7 +558,9 @@ def build(tier):
     spaces.append(DtypeSpace(b["dtypes"]))
     spaces.append(ConfigSpace(*b["config"]))
     spaces += [SparseSpace(*sp) for sp in b["sparse"]]
+    spaces += [PrecisionSpace(*ps) for ps in b["precision"]]
     for mode in ("jit", "interp"):
         spaces.append(Conf2x3Space(mode, 4 if (tier == "quick" and mode == "jit") else 1))
         spaces.append(Conf3x3Space(mode, *b["slice"]))
+        spaces.append(PrecisionConfSpace(mode, b["precision_conf"]))
     return spaces
